@@ -232,6 +232,36 @@ Theorem accepted_write_all_valid : forall (e : env) (m : model) (cds : cdefs) (l
 Proof. exact ValidProofs.accepted_write_all_valid. Qed.
 Print Assumptions accepted_write_all_valid.
 
+(* validation has no memory (the statement behind the history cases of the driver: the same tuple
+   validated alone, after other tuples on the same typesystem, or at any position of a Write) *)
+Theorem validate_stateless : forall (e : env) (m : model) (cds : cdefs) (limit : N)
+  (before after : list rtuple) (w : rtuple),
+  nth (length before) (validate_seq e m cds limit (before ++ w :: after)) false =
+  valid_for_write e m cds limit w /\
+  nth (length before) (validate_ctx_seq e m cds (before ++ w :: after)) false =
+  valid_ctx_tuple e m cds w.
+Proof. exact validate_seq_stateless. Qed.
+Print Assumptions validate_stateless.
+Example validate_stateless_ex :
+  validate_seq Witness.we Witness.wm Witness.wcds 64 [Witness.w_ok; Witness.w_badctx; Witness.w_ok; Witness.w_self] =
+  [true; false; true; false].
+Proof. vm_compute. reflexivity. Qed.
+
+(* an invalid tuple at ANY position of the request: validation_error, nothing stored *)
+Theorem invalid_tuple_any_position : forall (e : env) (m : model) (cds : cdefs) (limit maxw : N)
+  (od om : wopt) (s : store) (deletes : list skey) (before after : list rtuple) (w : rtuple),
+  valid_for_write e m cds limit w = false ->
+  w_result (write_cmd e m cds limit maxw od om s deletes (before ++ w :: after)) = WValidation /\
+  w_store (write_cmd e m cds limit maxw od om s deletes (before ++ w :: after)) = s.
+Proof. exact request_verdict_position_free. Qed.
+Print Assumptions invalid_tuple_any_position.
+Example invalid_tuple_any_position_ex :
+  w_result (write_cmd Witness.we Witness.wm Witness.wcds 64 10 OError OError Witness.st0 []
+              [Witness.w_self; Witness.w_ok]) = WValidation /\
+  w_result (write_cmd Witness.we Witness.wm Witness.wcds 64 10 OError OError Witness.st0 []
+              [Witness.w_ok; Witness.w_self]) = WValidation.
+Proof. vm_compute. split; reflexivity. Qed.
+
 (* ================================================================== *)
 (* D. Contextual tuples                                                 *)
 (* ================================================================== *)
